@@ -134,7 +134,7 @@ def _queries(fog, model, q, info):
     succ = [m for m in ms if m > q]
     r = impl("nearest_unknown", fog.nearest_unknown, q, allowed=(PerfectVisibility,))
     if not ms:
-        expect("PerfectVisibility-iff-empty", isinstance(r, Raised), f"nearest_unknown({q}) on a complete fog returned {r!r}")
+        expect("PerfectVisibility-iff-empty", isinstance(r, Raised), lambda: f"nearest_unknown({q}) on a complete fog returned {r!r}")
     else:
         expect("PerfectVisibility-iff-empty", not isinstance(r, Raised), f"nearest_unknown({q}) raised on a non-empty fog")
         expect("nearest-is-member", isinstance(r, tuple), lambda: f"nearest_unknown({q}) returned {r!r}")
@@ -153,20 +153,20 @@ def _queries(fog, model, q, info):
     r = impl("nearest_right", fog.nearest_right, q, allowed=(PerfectVisibility, FullDirectionalVisibility))
     if not ms:
         expect("PerfectVisibility-iff-empty", isinstance(r, Raised) and isinstance(r.exc, PerfectVisibility),
-               f"nearest_right({q}) on a complete fog gave {r!r}")
+               lambda: f"nearest_right({q}) on a complete fog gave {r!r}")
         # ... and must not be mistaken for "nothing to the right" by `except FullDirectionalVisibility`
         expect("FullDirectionalVisibility-iff-nothing-right", not isinstance(r.exc, FullDirectionalVisibility),
                f"nearest_right({q}) on a complete fog raised {type(r.exc).__name__}, which is a FullDirectionalVisibility")
     elif containing:
         expect("nearest_right-prefers-containing", isinstance(r, tuple)
-               and tuple(int(x) for x in r) == containing[0], f"nearest_right({q}) gave {r!r}, expected {containing[0]}")
+               and tuple(int(x) for x in r) == containing[0], lambda: f"nearest_right({q}) gave {r!r}, expected {containing[0]}")
     elif succ:
         expect("nearest_right-is-successor", isinstance(r, tuple)
-               and tuple(int(x) for x in r) == succ[0], f"nearest_right({q}) gave {r!r}, expected {succ[0]}")
+               and tuple(int(x) for x in r) == succ[0], lambda: f"nearest_right({q}) gave {r!r}, expected {succ[0]}")
     else:
         expect("FullDirectionalVisibility-iff-nothing-right", isinstance(r, Raised)
                and isinstance(r.exc, FullDirectionalVisibility),
-               f"nearest_right({q}) gave {r!r} although nothing lies to the right")
+               lambda: f"nearest_right({q}) gave {r!r} although nothing lies to the right")
         # ... and it must not be mistaken for "nothing is unexplored" by `except PerfectVisibility`
         expect("PerfectVisibility-iff-empty", not isinstance(r.exc, PerfectVisibility),
                f"nearest_right({q}) raised {type(r.exc).__name__}, which is a PerfectVisibility, on a non-empty fog")
@@ -200,7 +200,7 @@ def run_case(case):
             info.label("segments-as-iterator", shape == 2)
             r = impl("explore", fog.explore, p, arg, allowed=(Exception,))
             if ok:
-                expect("valid-explore-accepted", not isinstance(r, Raised), f"explore({p}, {segs}) was refused: {r!r}")
+                expect("valid-explore-accepted", not isinstance(r, Raised), lambda: f"explore({p}, {segs}) was refused: {r!r}")
                 new_model = (model - {p}) | {p + s for s in segs}
                 _check_fog(r, new_model, f"after explore({p}, {segs})")
                 # independent exploration commutes
@@ -222,7 +222,7 @@ def run_case(case):
                 info.label("explore-" + ("leaf" if not segs else "ext" if len(segs) == 1 else "multi"))
             else:
                 expect("invalid-explore-rejected", isinstance(r, Raised),
-                       f"explore({p}, {segs}) on {members} should be rejected, returned {r!r}")
+                       lambda: f"explore({p}, {segs}) on {members} should be rejected, returned {r!r}")
                 rejected += 1
                 info.label("rejected-unknown-prefix" if p not in model else "rejected-dup-or-nested")
                 new_model = model
@@ -244,7 +244,7 @@ def run_case(case):
             r = impl("mark_all_complete", fog.mark_all_complete, ps if len(ps) % 2 else iter(list(ps)),
                      allowed=(Exception,))
             if ok:
-                expect("valid-mark-accepted", not isinstance(r, Raised), f"mark_all_complete({ps}) was refused: {r!r}")
+                expect("valid-mark-accepted", not isinstance(r, Raised), lambda: f"mark_all_complete({ps}) was refused: {r!r}")
                 _check_fog(r, tmp, f"after mark_all_complete({ps})")
                 # equivalent to exploring each with no sub-segments
                 alt = fog
@@ -255,7 +255,7 @@ def run_case(case):
                 info.label("mark-accepted")
             else:
                 expect("invalid-mark-rejected", isinstance(r, Raised),
-                       f"mark_all_complete({ps}) on {members} should be rejected, returned {r!r}")
+                       lambda: f"mark_all_complete({ps}) on {members} should be rejected, returned {r!r}")
                 rejected += 1
                 new_fog, new_model = fog, model
                 info.label("mark-rejected")
@@ -290,7 +290,7 @@ def run_case(case):
     b = impl("nearest_unknown", fog.nearest_unknown, (), allowed=(PerfectVisibility,))
     expect("nearest_unknown-default-argument", (isinstance(a, Raised) and isinstance(b, Raised))
            or (not isinstance(a, Raised) and not isinstance(b, Raised) and tuple(a) == tuple(b)),
-           f"nearest_unknown() gave {a!r}, nearest_unknown(()) gave {b!r}")
+           lambda: f"nearest_unknown() gave {a!r}, nearest_unknown(()) gave {b!r}")
     for q in [(), (0,), (15, 15, 15, 15, 15, 15, 15)]:
         _queries(fog, model, q, info)
     info.label("completed", not model)
